@@ -1,19 +1,113 @@
 """C20 implementation driver: runs set/unset histories on real subclass forests of
 KittyImage / ITerm2Image and reports, after every operation, the value every class and
 instance sees for every setting, plus behavioural confirmations (framing of an actual
-render, instantiation under forced support)."""
+render, instantiation under forced support).
+
+Histories may contain RENDER operations ("s": "rd"): an instance -- whose source may be an
+animated GIF / APNG file, a PIL image opened from such a file, a static file or a static
+PIL image -- is rendered through str() / format() (with or without a per-call method) or
+as one frame of an ImageIterator; the output is decoded into the method whose format was
+produced (0 LINES, 1 WHOLE, 2 ANIM = ONE transmission whose payload is the whole animated
+file) and whether the "data size above the maximum for native animation" warning was
+issued.  The animated files are written to a temporary directory removed at exit."""
 import implenv
 from implenv import tests
+import atexit
+import io
+import os
+import random
 import re
+import shutil
+import tempfile
+import warnings
+from base64 import standard_b64decode
 
 from PIL import Image
-from term_image.image import ITerm2Image, KittyImage
+from term_image.exceptions import TermImageUserWarning
+from term_image.image import ImageIterator, ITerm2Image, KittyImage
 from term_image.image.iterm2 import ITerm2ImageMeta
 
 tests.set_cell_size((10, 20))
 IMG = Image.new("RGB", (4, 4), (10, 20, 30))
 METHODS = ["lines", "whole", "anim"]
 SETTINGS = {"kitty": ["rm", "fs"], "iterm2": ["rm", "fs", "jq", "rff", "nam"]}
+
+
+ITERM2_TX = re.compile(r"\x1b\]1337;File=([^:]*):([A-Za-z0-9+/=]*)\x1b\\")
+_FILES = {}
+
+
+def source_files():
+    """Deterministic animated / static sources on disk: {"g": gif, "n": apng, "s": png} ->
+    (path, bytes).  "q" (a PIL image opened from the GIF) shares the GIF."""
+    if not _FILES:
+        d = tempfile.mkdtemp(prefix="c20_src_")
+        atexit.register(shutil.rmtree, d, ignore_errors=True)
+        rng = random.Random(20)
+        frames = [Image.frombytes("L", (8, 8), bytes(rng.randrange(256) for _ in range(64)))
+                  for _ in range(3)]
+        g = os.path.join(d, "a.gif")
+        frames[0].save(g, save_all=True, append_images=frames[1:], duration=100, loop=0)
+        n = os.path.join(d, "a.png")
+        rgb = [f.convert("RGB") for f in frames]
+        rgb[0].save(n, save_all=True, append_images=rgb[1:], duration=100, loop=0)
+        st = os.path.join(d, "s.png")
+        rgb[1].save(st)
+        for key, path in (("g", g), ("n", n), ("s", st)):
+            with open(path, "rb") as f:
+                _FILES[key] = (path, f.read())
+        _FILES["q"] = _FILES["g"]
+    return _FILES
+
+
+def src_info():
+    f = source_files()
+    return {key: {"animated": int(key != "s"), "size": len(f[key][1])} for key in f}
+
+
+def used_method(out, root, data):
+    """Which method's output format is this?  0 LINES, 1 WHOLE, 2 ANIM; negative = none."""
+    if root == "kitty":
+        n = out.count("f=")
+        return 0 if n == 2 else (1 if n == 1 else -10 - n)
+    tx = ITERM2_TX.findall(out)
+    if len(tx) == 2 and all(";height=1;" in ctl for ctl, _ in tx):
+        return 0
+    if len(tx) != 1:
+        return -10 - len(tx)
+    payload = standard_b64decode(tx[0][1])
+    try:
+        with Image.open(io.BytesIO(payload)) as im:
+            nframes = getattr(im, "n_frames", 1)
+    except Exception:
+        return -3
+    if nframes == 1:
+        return 1  # a single-frame image
+    return 2 if payload == data else -2  # the whole animated file, untouched
+
+
+def do_render(inst, root, o, data):
+    """[method used, warning issued] of one render operation."""
+    m = o.get("m")
+    spec = "" if m is None else "+" + "LWA"[m]
+    with warnings.catch_warnings(record=True) as caught:
+        warnings.simplefilter("always")
+        try:
+            if o.get("f"):
+                it = ImageIterator(inst, 1, "1.1" + spec, False)
+                try:
+                    out = next(it)
+                finally:
+                    it.close()
+            elif m is None and o.get("pres", 0) % 2 == 0:
+                out = str(inst)
+            else:
+                out = format(inst, ["", "1.1", "2.2", ""][o.get("pres", 0) % 4] + spec)
+        except Exception as e:
+            return [-9, 0, type(e).__name__]
+    warned = [w for w in caught if issubclass(w.category, TermImageUserWarning)
+              and "native animation" in str(w.message)]
+    return [used_method(out, root, data), int(bool(warned))]
 
 
 def reset_root(Root):
@@ -84,9 +178,12 @@ def apply(s, op, target, val):
 
 
 def run_case(case):
+    if case.get("probe"):
+        return {"src": src_info()}
     root = case["root"]
     Root = {"kitty": KittyImage, "iterm2": ITerm2Image}[root]
     reset_root(Root)
+    opened, insts = [], []
     try:
         classes = [Root]
         for c, p in enumerate(case["par"]):
@@ -98,8 +195,23 @@ def run_case(case):
                 # in another metaclass'd base, a registry, ...): the settings must behave the same
                 meta = type(f"M{c}", (meta,), {})
             classes.append(meta(f"C{c}", (classes[p],), {}))
-        insts = [classes[c](IMG, width=2, height=2) for c in case["icls"]]
+        kinds = case.get("src") or ["p"] * len(case["icls"])
+        insts, datas = [], []
+        for c, kd in zip(case["icls"], kinds):
+            if kd == "p":
+                insts.append(classes[c](IMG, width=2, height=2))
+                datas.append(b"")
+                continue
+            path, data = source_files()[kd]
+            if kd == "q":
+                pil = Image.open(path)
+                opened.append(pil)
+                insts.append(classes[c](pil, height=2))
+            else:
+                insts.append(classes[c].from_file(path, height=2))
+            datas.append(data)
         settings = SETTINGS[root]
+        renders = []
 
         def snapshot(s):
             return [read(s, c) for c in classes] + [read(s, i) for i in insts]
@@ -109,6 +221,14 @@ def run_case(case):
         cur = {s: snapshot(s) for s in settings}
         for k, o in enumerate(case["ops"]):
             s = o["s"]
+            if s == "rd":
+                renders.append(do_render(insts[o["t"]], root, o, datas[o["t"]]))
+                for s2 in settings:  # a render changes no setting
+                    snap = snapshot(s2)
+                    if snap != cur[s2]:
+                        interference.append([k, s2])
+                    cur[s2] = snap
+                continue
             target = classes[o["t"]] if o["op"] in ("cs", "cu") else insts[o["t"]]
             val = decode(s, o["v"], o.get("pres", 0)) if o["op"] in ("cs", "is") else o.get("pres", 0) % 2
             code = apply(s, o["op"], target, val)
@@ -122,7 +242,9 @@ def run_case(case):
             # behavioural confirmation: the framing of an actual render of every instance
             for j, inst in enumerate(insts):
                 want = cur["rm"][len(classes) + j]
-                got = framing(str(inst), root)
+                with warnings.catch_warnings():
+                    warnings.simplefilter("ignore")
+                    got = framing(str(inst), root)
                 if (got == 0) != (want == 0):
                     framing_bad.append([k, j, want, got])
         final = {}
@@ -151,8 +273,16 @@ def run_case(case):
                 ok = 0 if type(e).__name__ == "StyleError" else -1
             inst_ok.append(int(ok == cur["fs"][ci]))
         final["instantiation_ok"] = inst_ok
-        return {"obs": obs, "interference": interference, "framing_bad": framing_bad, "final": final}
+        return {"obs": obs, "interference": interference, "framing_bad": framing_bad, "final": final,
+                "renders": renders, "srcs": [[int(i.is_animated), len(d)] for i, d in zip(insts, datas)]}
     finally:
+        for inst in insts:
+            try:
+                inst.close()
+            except Exception:
+                pass
+        for pil in opened:
+            pil.close()
         reset_root(Root)
 
 
